@@ -31,6 +31,8 @@ func init() {
 			{ID: "C14.7", Desc: "a file name returned as one path component is bounded by the file-name limit", Run: ruleC14_7, MinSites: 1},
 			{ID: "C14.10", Desc: "every key has a file name: the namer returns a text derived from the key only where it was tested to be non-empty (the empty key gets a name of its own)", Run: ruleC14_10, MinSites: 1},
 			{ID: "C14.11", Desc: "a Set or Delete that failed with a timeout does not change the map later", Run: func(c *Ctx) { ruleAbandonedNotPublished(c, "C14.11") }, MinSites: 1},
+			{ID: "C14.12", Desc: "Delete removes only the key's file", Run: func(c *Ctx) { ruleDeleteOnlyTheKey(c, "C14.12") }, MinSites: 1},
+			{ID: "C14.13", Desc: "the listing skips files only on kind, temporary prefix or decoded key", Run: func(c *Ctx) { ruleKeysWalkConditions(c, "C14.13") }, MinSites: 1},
 		},
 	})
 }
